@@ -138,6 +138,14 @@ def gen_schedule(rng, i, tier):
     steps = []
     for _ in range(rng.randint(3, 8)):
         steps.append(gen_step(rng, b, cfg, data_files, cats, views, words, tier))
+    if rng.random() < 0.2 or i % 10 == 2:
+        # the folder was initialised by tally before, the user has since written into the files it generated, and runs init again
+        # (to pick up new starter files): everything generated earlier is now the user's
+        init_step = next((st_ for st_ in steps if st_['kind'] == 'init'), None)
+        if init_step is None:
+            init_step = {'kind': 'init', 'variant': 'init:dot', 'argv': ['init', '.'], 'cwd': '.', 'env': {}, 'tty': {'stdin': False, 'stdout': False, 'answers': []}, 'target': '.'}
+        steps = [s_ for s_ in steps[:3]] + [dict(init_step), {'kind': 'edit-generated', 'variant': 'edit-generated', 'argv': [], 'cwd': '.', 'env': {}, 'tty': {}},
+                                            dict(init_step)] + rng.sample(steps, min(2, len(steps)))
     alt_key = base + 'config/settings-2024.yaml'
     if i % 10 == 3 and b['rules_kind'] == 'csv':
         # one budget, one settings file per year, all on the same legacy CSV: a requested migration under one of them, then ordinary
@@ -540,7 +548,18 @@ def execute(sched, scratch, seed=None, i=None):
     try:
         pre = util.restore(root, util.snap_from_json(sched['world']))
         prev = None
+        generated = []
         for j, step in enumerate(sched['steps']):
+            if step['kind'] == 'edit-generated':
+                # the user edits every file the last `init` created (an outside actor between two commands)
+                for rel_ in generated:
+                    p_ = os.path.join(root, rel_)
+                    if os.path.isfile(p_) and not os.path.islink(p_):
+                        with open(p_, 'ab') as fh_:
+                            fh_.write(b'\n# my own notes - keep\n')
+                pre = util.snapshot(root)
+                log.append(['edit-generated', sorted(generated), util.tree_digest(pre)])
+                continue
             env = {k: v.replace('<ROOT>', os.path.realpath(root)) for k, v in (step.get('env') or {}).items()}
             plan = {'tty': dict(step['tty'], answers=list(step['tty'].get('answers') or [])), 'net': 'down',
                     'today': '2025-06-15', 'env': env, 'fault': step.get('fault'), 'reads': step.get('reads')}
@@ -565,6 +584,8 @@ def execute(sched, scratch, seed=None, i=None):
             log.append(['step', j, step['argv'], step['cwd'], r.exit,
                         [[e['k'], e.get('path') or e.get('src'), e.get('dst')] for e in r.effects],
                         util.sha(util.norm_text(r.out, root)), util.sha(util.norm_text(r.err, root)), util.tree_digest(post)])
+            if step['kind'] == 'init':
+                generated = [r_ for r_, ch_ in util.diff(pre, post) if ch_ == 'created' and not r_.endswith('/') and not r_.endswith('@')]
             wrote = bool(r.effects)
             sets['triples'].add('%s|%s|%s' % (step['variant'], world_shape(pre, sched['model']['cfg'], sched['model']['layout']), wrote))
             sets['variants'].add(step['variant'])
